@@ -229,11 +229,11 @@ theorem plain_no_f (sg : Option Bool) (ip fp : Str) (dot : Bool) (hip : allDig i
         · exact isDig_ne_f (hfp c h)
 
 /-- **Workhorse.** `strToBigInt` on a plain decimal string `[sign] ip [ "." fp ]` with
-    at most 27 fraction digits (the `pow5` table), digits value `N`: if
+    at most 248 fraction digits (`pow5` exact), digits value `N`: if
     `N·10^(d - |fp|) < 2^510` the result is exactly `± ⌊N·10^d / 10^|fp|⌋`. -/
 theorem strToBigInt_plain (sg : Option Bool) (ip fp : Str) (dot : Bool) (d : Nat)
     (hip : allDig ip) (hfp : allDig fp) (hdot : dot = false → fp = []) (hne : ip ++ fp ≠ [])
-    (hf : fp.length ≤ 27)
+    (hf : fp.length ≤ 248)
     (hbound : Nat.ofDigitChars 10 (ip ++ fp) 0 * 10 ^ (d - fp.length) < 2 ^ 510) :
     strToBigInt (signStr sg ++ plainBody ip fp dot) (d : Int) =
       .ok (if signNeg sg then -((Nat.ofDigitChars 10 (ip ++ fp) 0 * 10 ^ d / 10 ^ fp.length : ℕ) : Int)
